@@ -37,6 +37,27 @@ CHECKS = {
          BND + " Identifiers are concrete selectors (hashing is a C boundary).", "2/C18"),
  "C19": ("pathsym relational step: both procedures on two copies of one symbolic state in one path; z3 validity of post_A = post_B",
          "From every Inv state, for each validation variant (absent, correct incl. upper-case and non-default algorithm, wrong checksum, wrong size): one-call and in-steps procedures give the same outcome, cid, size, default digests and equal post-states (z3) when valid; the same mismatch class, unchanged pid binding and undisturbed referenced objects when invalid.", BND, "2/C19"),
+ "C07": ("pathsym with a symbolic schedule vector (sched_n, wake_k) over a cooperative scheduler running the real methods in real threads; oracle = all sequential orders of the real code",
+         "Every pair (thorough: B=2 and 8 triples) of store_object/tag_object/delete_object/delete_if_invalid_object calls over 2 pids and 2 contents from four starting states: every feasible schedule within the preemption bound is executed; each call's result and the final abstract state must equal some sequential order (StoreObjectForPidAlreadyInProgress admitted only against a concurrent store of the same pid). Violations are replayed with real threads on the real file system under the recorded schedule. Four genuine races are listed as known findings (D6, D11, D12, D13).",
+         "Preemption bound 1 (quick) / 2 (thorough); scheduling points = lock operations, file-system operations and existence probes; scheduler-aware model of threading.Lock/Condition (notify wakes one arbitrary waiter).", "2/C07"),
+ "C08": ("pathsym: symbolic schedule vector (deadlock decided per explored interleaving) + symbolic fault point; lock lists and follow-up calls",
+         "All C07/C12 pair scenarios plus mixed object/metadata pairs: no execution deadlocks or exceeds the step budget, all four locked-identifier lists are empty at quiescence and follow-up calls on the identifiers complete; the same after every single call that failed with an injected I/O error (once / persistent).",
+         "Same bounds as C07/C12/C13.", "2/C08"),
+ "C09": ("pathsym with a symbolic crash point (crash_at) as observer over the frozen file-system model; trace check for in-place writes",
+         "For every feasible (state, call, operation index): at the frozen state before the operation every touched object address holds content whose digest is its name, every metadata document is a complete supplied version, every pid reference a complete cid; only rename/remove ever target a permanent address.",
+         "Granularity: one buffered flush = one operation; POSIX rename/unlink atomic; contents up to 3 model buffers.", "2/C09"),
+ "C10": ("pathsym with a symbolic crash point; frozen model; recovery script on a fresh instance; frame by z3; passthrough replay with fork + os._exit",
+         "For every feasible (Inv state, call, crash point): after reopening, every other pid's reference, listing, metadata and object are unchanged (z3); the interrupted pid is served with the right bytes or a not-found/inconsistent error; delete_object (may say unknown) then store_object succeeds and the pid is retrievable; the recovery harms no other pid.",
+         "One crash per call; |P|=2 (3 thorough); directory existence symbolic in the thorough tier.", "2/C10"),
+ "C12": ("pathsym with a symbolic schedule vector over a cooperative scheduler; oracle = all sequential orders",
+         "Every pair (thorough: B=2 and triples) of store_metadata(v0/v1), retrieve_metadata, delete_metadata(format), delete_metadata(all), delete_object on one pid and two formats from four starting states: results and final documents equal some sequential order; a reader gets a complete version or a not-found error.",
+         "Preemption bound 1 (quick) / 2 (thorough); same scheduler model as C07.", "2/C12"),
+ "C13": ("pathsym with symbolic fault point, stickiness and errno over the file-system model; passthrough replay raising a real OSError",
+         "For every feasible (Inv state, call, fault site, once/persistent): success is reported only if post = model(pre, call); a failed store_object/tag_object leaves the binding unchanged and succeeds at once on retry; a failed store_metadata keeps the previous version; other pids untouched. One genuine defect (persistent failure on the cid list defeats the roll-back) is a known finding (D9).",
+         "One fault per call; shutil.move's copy+unlink fallback modelled; quick tier: errno EIO, directories tied.", "2/C13"),
+ "C16": ("pathsym relational step (both synchronisation modes in one path, z3 validity of post_th = post_mp) + schedule exploration through the multiprocessing code paths on scheduler-aware model primitives",
+         "(i) every Inv state x every call of the C05/C11 menu gives equal results and post-states in both modes; (ii) the C07/C12 interleavings re-explored with USE_MULTIPROCESSING=True execute the _mp sections. Real forked processes contending through OS-level primitives are NOT covered (not applicable to symbolic execution): the claim is limited to the code paths under assumed primitive semantics.",
+         "multiprocessing.Lock/Condition/Manager().list() assumed to behave like their threading counterparts.", "2/C16"),
 }
 NA = {}
 def main():
